@@ -6,6 +6,7 @@ import PGV.Props.C05
 #print axioms PGV.Props.C05.C05_phone
 #print axioms PGV.Props.C05.C05_float
 #print axioms PGV.Props.C05.C05_idcard
+#print axioms PGV.Props.C05.C05_email
 #print axioms PGV.Props.C05.C05_timefmt_year
 #print axioms PGV.Props.C05.C05_timefmt_year2month
 #print axioms PGV.Props.C05.C05_timefmt_date
@@ -15,4 +16,3 @@ import PGV.Props.C05
 #print axioms PGV.Props.C05.allDistinct_eq_distinct
 #print axioms PGV.Props.C05.C05_prefix_suffix
 #print axioms PGV.Props.C05.C05_patterns
-#print axioms PGV.Props.Facts.T2_patterns
